@@ -733,7 +733,9 @@ fn rows2(
         return Ok(());
     }
     match (xs.row_count(), ys.row_count()) {
-        (_, 1) => {
+        // A scalar against a single row is the repeated argument whichever side it is on,
+        // so that the result keeps the meta of the array that has the row
+        (_, 1) if !(xs.rank() == 0 && ys.rank() > 0) => {
             ys.undo_fix();
             ys = ys.unboxed_if(inv);
             let is_empty = outputs > 0 && xs.row_count() == 0;
